@@ -54,6 +54,11 @@ def native_case(seed, i, engine):
     # delete + re-create before any compaction: the creator takes its compare-and-swap path over the deletion record
     lines += ["delete %s 0" % hx(ev[0]), "rev", "create %s %s" % (hx(ev[0]), hx(b"v2")), "rev",
               "delete %s 0" % hx(look[0]), "rev", "create %s %s" % (hx(look[0]), hx(b"v2")), "rev", "ttllog"]
+    # guarded updates that carry a client LEASE (etcd's put.Lease; a lease id is its ttl): an update takes no ttl from the
+    # request - a key that is not an Event must not get one, and the records of one key must share their deadline
+    n = hist.INIT + len(ev + look) + 4
+    lines += ["update %s %s %d lease=1" % (hx(look[1]), hx(b"v3"), hist.INIT + 4), "rev",
+              "update %s %s %d lease=2" % (hx(look[0]), hx(b"v3"), n), "rev", "ttllog"]
     lines += ["sleep 2600", "echo after-ttl"]
     lines += ["get %s 0" % hx(k) for k in ev + look]
     lines += ["create %s %s" % (hx(ev[0]), hx(b"again")), "rev", "get %s 0" % hx(ev[0])]
@@ -88,6 +93,52 @@ def badger_young_case(i):
              "get %s 0" % hx(e), "create %s %s" % (hx(e), hx(b"dup")), "rev", "since c",
              "sleep 2300", "echo after-ttl", "get %s 0" % hx(e), "create %s %s" % (hx(e), hx(b"again")), "rev"]
     return core.Case("backend", lines, {"engine": "badger", "native": True, "byoung": True, "ev": [e], "look": []}, compare=lambda op: False)
+
+
+def native_updated_case(i, engine):
+    """native-ttl engine: an Event that is UPDATED within its ttl. Whatever the engine then does with its records - keep them
+    (an update names no ttl) or let them go - it does it to the index record and the versions TOGETHER: after the deadline of
+    the create the key is either whole (reads present, a guarded update naming its revision succeeds, a create is refused) or
+    gone (reads absent, can be created). Judged only when the wall-clock marks say the deadline has passed."""
+    e = EVENT_KEYS[i % len(EVENT_KEYS)]
+    lines = [hist.cfg_line(engine, eventsttl=1), "mark c", "create %s %s" % (hx(e), hx(b"v1")), "rev", "sleep %d" % [300, 600, 150][i % 3],
+             "update %s %s %d" % (hx(e), hx(b"v2"), hist.INIT + 1), "rev", "sleep 2300", "since c", "echo whole-or-gone",
+             "get %s 0" % hx(e), "list %s %s 0 0" % (hx(PREFIX + b"/"), hx(PREFIX + b"0")),
+             "update %s %s %d" % (hx(e), hx(b"v3"), hist.INIT + 2), "rev", "create %s %s" % (hx(e), hx(b"dup")), "rev"]
+    return core.Case("backend", lines, {"engine": engine, "native": True, "nupdated": True, "ev": [e], "look": []}, compare=lambda op: False)
+
+
+def native_updated_oracle(case):
+    since, mode, present, upd = None, None, None, None
+    for i, (line, out) in enumerate(zip(case.lines, case.impl)):
+        t, o = line.split(), out.split()
+        if line == "since c" and len(o) == 3:
+            since = int(o[2])
+        if t[0] == "echo":
+            mode = t[1]
+            continue
+        if mode != "whole-or-gone" or since is None or since < 2250:
+            continue
+        if t[0] == "update" and i > 0 and o[1:2] != ["ok"] and present is None:
+            continue
+        if t[0] == "get" and len(o) >= 3:
+            present = o[2] != "-"
+        elif t[0] == "list" and len(o) >= 4 and present is not None:
+            listed = hx(case.meta["ev"][0]) in o[3]
+            if listed != present:
+                return ("line %d: %d ms after its create (ttl 1 s) the updated Event reads %s by Get and is %s by List: its records "
+                        "did not go together" % (i + 1, since, "present" if present else "absent", "listed" if listed else "not listed"), "expired-partially")
+        elif t[0] == "update" and present is not None:
+            upd = o[1]
+            if present and upd != "ok":
+                return ("line %d: %d ms after its create (ttl 1 s) the updated Event reads present at revision %d, but the update that "
+                        "names exactly that revision is answered `%s`: its revision record went without its version" % (i + 1, since, hist.INIT + 2, out[:80]), "expired-partially")
+        elif t[0] == "create" and present is not None:
+            if not present and o[1] != "ok":
+                return ("line %d: the Event reads absent but cannot be created (%s): its revision record outlived its versions" % (i + 1, out[:80]), "expired-partially")
+            if present and upd == "ok" and o[1] == "ok":
+                return ("line %d: a live Event (just updated) could be created again" % (i + 1), "expired-partially")
+    return None
 
 
 def badger_young_oracle(case):
@@ -732,6 +783,7 @@ def check(rep, tier, seed):
     cases += [engine_ttl_case(seed, i, ENGINE_TTL_ENGINES[i % 2], tier) for i in range(2 if tier == "quick" else 20)]
     cases += [renew_case(seed, i, ["update", "recreate"][i % 2]) for i in range(2 if tier == "quick" else 24)]
     cases += [badger_young_case(i) for i in range(2 if tier == "quick" else 12)]
+    cases += [native_updated_case(i, ["badger", "memkv", "metrics-badger"][i % 3]) for i in range(3 if tier == "quick" else 18)]
     cases += [hostile_sibling_case(i) for i in range(2 if tier == "quick" else 9)]
     cases += [straddle_case(i) for i in range(2 if tier == "quick" else 8)]
     cases += [mark_age_case(i) for i in range(2 if tier == "quick" else 9)]
@@ -755,7 +807,7 @@ def check(rep, tier, seed):
             rep.cov["mark_age_cases_conclusive"] = rep.cov.get("mark_age_cases_conclusive", 0) + (1 if mark_age_conclusive(c) else 0)
     pick = lambda c: (mark_age_oracle(c) if c.meta.get("markage") else straddle_oracle(c) if c.meta.get("straddle") else hostile_sibling_oracle(c) if c.meta.get("sibling") else
                       interrupted_oracle(c) if c.meta.get("interrupted") else
-                      badger_young_oracle(c) if c.meta.get("byoung") else renewed_oracle(c) if c.meta.get("renewed")
+                      native_updated_oracle(c) if c.meta.get("nupdated") else badger_young_oracle(c) if c.meta.get("byoung") else renewed_oracle(c) if c.meta.get("renewed")
                       else engine_ttl_oracle(c) if c.meta.get("engine_ttl") else concurrent_oracle(c) if c.meta.get("concurrent")
                       else renew_oracle(c) if c.meta.get("renew") else native_oracle(c) if c.meta.get("native") else oracle(c))
     if core.judge(rep, "C17", cases, pick):
